@@ -34,10 +34,15 @@ esac
 
 pub struct PStats { pub runs: usize, pub problems: usize }
 
-fn run(mode: &str, instances: &str, files: &[(&str, &str)], flags: &[&str], with_fake: bool) -> Result<(i32, String, BTreeMap<String, String>, Vec<String>), String> {
+fn run(mode: &str, instances: &str, files: &[(&str, &str)], flags: &[&str], with_fake: bool) -> Result<(i32, String, BTreeMap<String, String>, Vec<String>), String> { run_in(mode, instances, files, flags, with_fake, &[]) }
+
+fn run_prefilled(mode: &str, instances: &str, files: &[(&str, &str)], flags: &[&str], prefill: &[(String, String)]) -> Result<(i32, String, BTreeMap<String, String>, Vec<String>), String> { run_in(mode, instances, files, flags, true, prefill) }
+
+fn run_in(mode: &str, instances: &str, files: &[(&str, &str)], flags: &[&str], with_fake: bool, prefill: &[(String, String)]) -> Result<(i32, String, BTreeMap<String, String>, Vec<String>), String> {
     let d = scratch_dir();
     let (bin, log, out) = (d.join("bin"), d.join("log"), d.join("out"));
     for x in [&bin, &log, &out] { std::fs::create_dir_all(x).map_err(|e| e.to_string())?; }
+    for (n, t) in prefill { std::fs::write(out.join(n), t).map_err(|e| e.to_string())?; }
     if with_fake {
         let v = bin.join("vampire");
         std::fs::write(&v, FAKE).map_err(|e| e.to_string())?;
@@ -111,6 +116,18 @@ pub fn check(deep: bool, st: &mut PStats, fails: &mut Vec<Failure>) {
                 if success && failure { fails.push(Failure { property: "C10", input: what.clone(), detail: format!("both success and failure reported (exit {rc})") }); }
                 if success != expect_success {
                     fails.push(Failure { property: "C10", input: what.clone(), detail: format!("anthem reports {} although {}", if success { "success" } else { "failure" }, if expect_success { "every prover run printed SZS status Theorem" } else { "not every prover run printed SZS status Theorem" }) });
+                }
+            }
+        }
+        // an output directory that already holds (longer) files of the same names: what is saved is still what the prover receives
+        st.runs += 1;
+        if let Ok((_, _, first, _)) = run("theorem", "2", files, flags, true) {
+            let stale: Vec<(String, String)> = first.iter().map(|(n, t)| (n.clone(), format!("{t}{}", "% stale line of an earlier run\ntff(stale, axiom, $false).\n".repeat(40)))).collect();
+            if let Ok((_, _, saved, mut received)) = run_prefilled("theorem", "2", files, flags, &stale) {
+                let mut want: Vec<String> = saved.values().cloned().collect();
+                want.sort(); received.sort();
+                if want != received {
+                    fails.push(Failure { property: "C10", input: format!("anthem verify {} --save-problems DIR where DIR already holds longer files named {:?}: {}", flags.join(" "), first.keys().collect::<Vec<_>>(), files.iter().map(|(f, t)| format!("{f}=`{t}`")).collect::<Vec<_>>().join(" ")), detail: "the files left in DIR are not the texts the prover received (an old file is not replaced completely)".into() });
                 }
             }
         }
